@@ -83,10 +83,18 @@ func vfH_C10_defer() {
 	env.db.status = vfNonLeaderStatus("status") // every non-leader state, not only "follower"
 	c := env.newCmd(protocol.COMMAND_LOCK, key, vfLockId(1))
 	c.Flag = protocol.LOCK_FLAG_FROM_AOF
-	c.Expried, c.Count = 3, 0
+	// one holder of an exclusive key, or 2..3 replicated holders of a shared key
+	H := 1 + vfChoice("holders", 3)
+	c.Expried, c.Count = 3, uint16(H-1)
 	env.lock(0, c)
+	for i := 1; i < H; i++ {
+		o := env.newCmd(protocol.COMMAND_LOCK, key, vfLockId(uint8(1+i)))
+		o.Flag = protocol.LOCK_FLAG_FROM_AOF
+		o.Expried, o.Count = 3, uint16(H-1)
+		env.lock(0, o)
+	}
 	m := env.manager(key)
-	vfAssert(m != nil && len(vfHolders(m)) == 1, "C10: a from-aof LOCK was not applied on the follower")
+	vfAssert(m != nil && len(vfHolders(m)) == H, "C10: a from-aof LOCK was not applied on the follower")
 	n := len(env.replies)
 	late := vfChoice("late", 3)
 	switch late {
@@ -98,7 +106,7 @@ func vfH_C10_defer() {
 		vfTick(env, 303)
 	}
 	m = env.manager(key)
-	vfAssert(m != nil && len(vfHolders(m)) == 1, "C10: a follower ended a replicated hold on its own clock less than 300 s after the deadline")
+	vfAssert(m != nil && len(vfHolders(m)) == H, "C10: a follower ended a replicated hold on its own clock less than 300 s after the deadline")
 	for _, r := range env.replies[n:] {
 		vfAssert(r.result != protocol.RESULT_EXPRIED, "C10: a follower sent EXPRIED for a replicated hold it must keep")
 	}
